@@ -24,12 +24,15 @@ DEVICES = {
     # firmware that answers the export-limit register with ILLEGAL DATA ADDRESS (what one unit refuses must not be
     # remembered for another)
     "ETnolimit": {"family": "ET", "serial": "9010KETU218W0001", "rated_power": 10000, "refuse": [], "refuse_addrs": [47510]},
+    # two units behind one Modbus/TCP gateway (same host:port, different communication addresses)
+    "ETtcp": {"family": "ET", "serial": "9010KETU218W0001", "rated_power": 10000, "refuse": [], "transport": "tcp"},
+    "DTtcp": {"family": "DT", "serial": "9010KDTU218W0001", "refuse": [], "transport": "tcp"},
     "ES": {"family": "ES", "serial": "95048ESU218W0001", "firmware": "2323G"},
     "DT": {"family": "DT", "serial": "9010KDTU218W0001", "refuse": []},
     "DT1": {"family": "DT", "serial": "9010KDSN218W0001", "refuse": []},
 }
 PAIRS = [("ET", "ET"), ("ET", "ET745"), ("ET745", "ET"), ("ET", "ES"), ("DT", "ET"), ("DT", "DT1"), ("ETv1", "ETv1"),
-         ("ES", "ES"), ("ETunset", "ET")]
+         ("ES", "ES"), ("ETunset", "ET"), ("ET745", "ETunset"), ("ETtcp", "DTtcp")]
 
 # operations: name -> coroutine factory(inv, args)
 OPS = ("runtime", "read_eco", "read_scalar", "write_scalar", "write_eco", "eco_charge", "read_sensor")
@@ -43,7 +46,7 @@ def reset_class_state(M):
     so that a path does not inherit what an earlier path left there (the *property* is checked from a fresh process
     state; leaking between objects within one path is what the check is about)."""
     S = M.sensor
-    reset_mutable_class_state(M, modules=("protocol", "inverter", "et", "es", "dt"))
+    reset_mutable_class_state(M, modules=("protocol", "inverter", "et", "es", "dt", "model", "sensor"))
     for cls_ in (M.et.ET, M.es.ES, M.dt.DT):
         for name, val in vars(cls_).items():
             if isinstance(val, tuple) and val and all(hasattr(x, "id_") for x in val):
@@ -146,7 +149,8 @@ class TwoObjects(Harness):
                 # a DT meter total (4-byte energy counter): any content, including the 'no value' pattern
                 return val(f"{who}_m{addr - 30197}", 0, 0xFFFF)
             return (addr * 31 + 17 + 1000 * k) % 3000
-        inv, fake = models.make(M, cfg, default=lambda a: 1, crc=crc)
+        inv, fake = models.make(M, {k: v for k, v in cfg.items() if k != "transport"}, default=lambda a: 1, crc=crc,
+                                transport=cfg.get("transport", "udp"))
         info = range(0x88b8, 0x88b8 + 0x21) if cfg["family"] == "ET" else range(0x7531, 0x7531 + 0x28)
         fake.regs = {a: v for a, v in fake.regs.items() if a in info}
         fake.default = default
@@ -215,7 +219,16 @@ class TwoObjects(Harness):
                     unstable.append((w2, step, who, name, snap(obj), s_then, eq))
             if not isinstance(r, (type(None), int, float, str, bytes, SInt, SReal, SBool, BaseException)):
                 live.append((who, len(res[who]) - 1, r, s0))   # only mutable objects can change after return
-        logs = {w: list(objs[w][1].log) for w in objs}
+        logs = {}
+        for w in objs:
+            fake = objs[w][1]
+            tcp = DEVICES[self.pair[0] if w == "A" else self.pair[1]].get("transport") == "tcp"
+            comms = []
+            for raw in fake.raw_log:
+                items = list(raw.items) if hasattr(raw, "items") and not isinstance(raw, (bytes, bytearray)) else list(raw)
+                if len(items) >= 8 and not (items[0] == 0xAA and items[1] == 0x55):
+                    comms.append(items[6] if tcp else items[0])     # unit / communication address of the request
+            logs[w] = list(fake.log) + [("comm",) + tuple(comms)]
         return res, logs, unstable
 
     def compare(self, ex_check, solo, inter, who):
